@@ -133,7 +133,8 @@ def run(ctx):
         ncf += v["nConstrainedFound"]
         nun += v["nUnconstrained"]
     # binding self-test
-    good = [r for r in recs if r["outcome"] == "found" and r["start"] >= 1 and r["stop"] >= 0 and r["stop"] <= r["start"]]
+    badids = {s["id"] for s, _ in bad}
+    good = [r for r in recs if r["id"] not in badids and r["outcome"] == "found" and r["start"] >= 1 and r["stop"] >= 0 and r["stop"] <= r["start"]]
     st = None
     if good:
         c = dict(good[0], level=good[0]["level"] - 1 if good[0]["level"] > 0 else good[0]["level"] + 1)
